@@ -115,6 +115,8 @@ def cases(draw):
     return {'entry': draw(st.sampled_from(['run', 'run', 'rf'])),
             'sup_end': draw(st.sampled_from(['return0', 'return1', 'fail0', 'fail1'])),
             'abort_before_start': draw(st.sampled_from([None] * 8 + ['E3', 'cancel'])),
+            # a control event sent while the blocks are being initialised (by a block's first output)
+            'init_ctrl': draw(st.sampled_from([None] * 8 + ['abort', 'shutdown'])),
             'mt_at': draw(st.sampled_from([None, None, 0.25, 1.25, 2.25, 3.25])),
             'mts_at': draw(st.sampled_from([None, None, None, 0.75, 1.75, 2.75])),
             'groups': groups}
@@ -135,6 +137,10 @@ def model(case):
     if case['abort_before_start']:
         return {'error': 'E3' if case['abort_before_start'] == 'E3' else 'CancelledError', 'cause': None,
                 'at': -1.0, 'competing': 1, 'before_start': True}
+    if case.get('init_ctrl'):
+        # delivered during the synchronous initialisation: nothing else can come first
+        return {'error': 'EdzedCircuitError' if case['init_ctrl'] == 'abort' else 'CancelledError',
+                'cause': None, 'at': -1.0, 'competing': 1, 'before_start': True}
     timeline = [(g['t'], list(g['actions'])) for g in case['groups']]
     last_t = case['groups'][-1]['t']
     end = last_t + 0.5 if case['entry'] == 'rf' else last_t + (1 if case['sup_end'].endswith('1') else 0)
@@ -191,6 +197,9 @@ def execute(case):
             MT('mt', x_at=case['mt_at'])
         if case.get('mts_at') is not None:
             MTS('mts', x_at=case['mts_at'], x_event=edzed.Event(b2, 'boom'))
+        if case.get('init_ctrl') and not case['abort_before_start']:
+            edzed.Input('ic', initdef=1, on_output=(
+                edzed.Event.abort() if case['init_ctrl'] == 'abort' else edzed.Event.shutdown()))
         if case['abort_before_start'] == 'E3':
             circuit.abort(E3('aborted before start'))
         elif case['abort_before_start'] == 'cancel':
@@ -369,5 +378,7 @@ def execute(case):
         res.classes.append('>=2 sources in one instant')
     if case['abort_before_start']:
         res.classes.append('abort before start')
+    elif case.get('init_ctrl'):
+        res.classes.append('control event during initialisation')
     res.outcome = {'error': obs['error'], 'run': obs.get('run'), 'rf': obs.get('rf')}
     return res
